@@ -480,7 +480,11 @@ Cscd(b, o, p, pk) ==
       Nm(p \o "/" \o pk \o "/code_set", Fl(b, o + 4, 3, 4)), Nm(p \o "/" \o pk \o "/association", Fl(b, o + 5, 5, 2)),
       Nm(p \o "/" \o pk \o "/designator_type", Fl(b, o + 5, 3, 4)),
       Nm(p \o "/device_type_specific_parameters/pad", Fl(b, o + 28, 2, 1)),
-      Nm(p \o "/device_type_specific_parameters/disk_block_length", Fl(b, o + 29, 7, 24)) }
+      Nm(p \o "/device_type_specific_parameters/disk_block_length", Fl(b, o + 29, 7, 24)),
+      \* reserved in the identification CSCD descriptor (unlike a VPD 83h designation descriptor, which has
+      \* PROTOCOL IDENTIFIER and PIV there): no caller value maps to them, so they must read as zero
+      Nm(p \o "/#reserved 4.7:4", Fl(b, o + 4, 7, 4)), Nm(p \o "/#reserved 5.7:2", Fl(b, o + 5, 7, 2)),
+      Nm(p \o "/#reserved 6", Fl(b, o + 6, 7, 8)) }
     \cup Designator(p \o "/" \o pk \o "/designator", NatOfNum(Fl(b, o + 5, 3, 4)), Bs(b, o + 8, Nn(b, o + 7, 1)))
 \* segment descriptors: 00h/01h/0Bh/0Ch block<->stream (24 bytes, tables 121/122): CAT 1.0, DESCRIPTOR LENGTH 2-3
 \* (0014h), source 4-5, destination 6-7, STREAM DEVICE TRANSFER LENGTH 9-11, BLOCK DEVICE NUMBER OF BLOCKS 14-15,
